@@ -43,58 +43,64 @@ def register(ctx, report, facts, config, rule="C17.REGISTER"):
     vt = vt_field(facts)
     b = facts.one(MT + "::register")
     report.touched(b, config)
-    paths = [p for p in enumerate_paths(b, facts) if p.end == "return"]
+    ev, ends = Q.sem(ctx, facts, b)
     seen = set()
-    for p in paths:
-        variant = None
-        entry_call = None
-        for (ct, cv, cn, cb) in p.conds:
-            if ct[0] == "discr" and isinstance(ct[1], tuple) and ct[1][0] == "call" and S.callee_at(b, ct[1][1]).name == "entry":
-                variant = cn
-                entry_call = ct[1]
-        if variant is None:
+    attach_args = []
+    for e in ends:
+        if e.kind != "return":
+            continue
+        events = [x for x in W._deep(e.path.events)]
+        pos = dict((id(x), i) for i, x in enumerate(events))
+        ents = [x for x in events if x[0] == "call" and x[2].name == "entry" and not x[2].local and Q.crate_fields(Q.table_access(ev, x[3][0])[0]) == [(MT, "indices")]]
+        if len(ents) != 1:
+            continue
+        entry_call = ents[0][4]
+        variant = e.path.variant(entry_call)
+        if variant not in ("Vacant", "Occupied"):
             continue
         seen.add(variant)
         problems = []
         pushes = {}
         inserts = []
         stores = []
-        for e in p.effects:
-            if e[0] == "call":
-                c = e[2]
-                if c.local or not e[3]:
+        for x in events:
+            if x[0] == "call":
+                c = x[2]
+                if c.local or not x[3]:
                     continue
-                f_, i_, base = S.table_access(b, e[3][0])
-                cf = S.crate_fields(f_)
-                if c.name in S.SHAPE_MUTATORS and cf and cf[-1][0] == MT:
-                    pushes.setdefault(cf[-1][1], []).append((c.name, e[3][1:], i_))
+                f_, i_, base = Q.table_access(ev, x[3][0])
+                cf = Q.crate_fields(f_)
+                if c.name in S.SHAPE_MUTATORS and cf and cf[-1][0] == MT and Q.strip(ev, x[3][0])[0] == "field":
+                    pushes.setdefault(cf[-1][1], []).append((c.name, x[3][1:], i_))
                 if c.name == "insert" and "VacantEntry" in c.path:
-                    inserts.append(e)
-            elif e[0] == "store":
-                f_, i_, base = S.table_access(b, e[2])
-                cf = S.crate_fields(f_)
+                    inserts.append(x)
+            elif x[0] == "store" and x[2][0] != "cell":
+                f_, i_, base = Q.table_access(ev, x[2])
+                cf = Q.crate_fields(f_)
                 if cf and cf[-1][0] == MT:
-                    stores.append((cf[-1][1], i_, e[3]))
-        key = entry_call[2][1]
-        okkey = key[0] == "call" and S.callee_at(b, key[1]).name == "of" and "TypeId" in S.callee_at(b, key[1]).path and W._type_args(S.callee_at(b, key[1])) == ["R"]
+                    stores.append((cf[-1][1], i_, x[3]))
+        key = Q.strip(ev, ents[0][3][1])
+        okkey = Q.is_call(ev, key, "of") and "TypeId" in Q.callee_of(ev, key).path and ev.targs(key) == ["R"]
         if not okkey:
-            problems.append("the index map is keyed by %s, not by TypeId::of::<R>()" % (key[:2],))
-        if not (S.crate_fields(S.table_access(b, entry_call[2][0])[0]) == [(MT, "indices")]):
-            problems.append("entry() is not taken on self.indices")
+            problems.append("the index map is keyed by %s, not by TypeId::of::<R>()" % (key[:1],))
 
         def is_vtable_value(v):
             while isinstance(v, tuple) and v and v[0] == "cast":
                 v = v[2]
             if vt == "vtable_fns":
-                return v[0] == "fnref" and v[2] == "attach_vtable"
-            return v[0] == "call" and S.callee_at(b, v[1]).name == "metadata"
+                if v[0] == "fnref" and v[2] == "attach_vtable":
+                    attach_args.append(list(v[3]) if len(v) > 3 else None)
+                    return True
+                return False
+            return Q.is_call(ev, v, "metadata")
         if variant == "Vacant":
             if len(inserts) != 1:
                 problems.append("vacant arm inserts %d index entr(y/ies)" % len(inserts))
             else:
-                idx = inserts[0][3][1]
-                oki = (idx[0] == "call" and S.callee_at(b, idx[1]).name == "len" and S.crate_fields(S.table_access(b, idx[2][0])[0]) == [(MT, "indices")]
-                       and p.blocks.index(idx[1]) < p.blocks.index(entry_call[1]))
+                idx = Q.strip(ev, inserts[0][3][1])
+                lens = [x for x in events if x[0] == "call" and x[4] == idx]
+                oki = (Q.is_call(ev, idx, "len") and Q.crate_fields(Q.table_access(ev, idx[2][0])[0]) == [(MT, "indices")]
+                       and lens and pos[id(lens[0])] < pos[id(ents[0])])
                 if not oki:
                     problems.append("the inserted index is not indices.len() taken before the insertion")
             pv = pushes.get(vt, [])
@@ -104,7 +110,7 @@ def register(ctx, report, facts, config, rule="C17.REGISTER"):
             else:
                 if not is_vtable_value(pv[0][1][0]):
                     problems.append("the appended vtable entry is not built for this registration's (T, R)")
-                if pt[0][1][0] != key:
+                if Q.strip(ev, pt[0][1][0]) != key:
                     problems.append("the appended type id is not the registration's TypeId::of::<R>()")
             if stores:
                 problems.append("vacant arm overwrites an existing slot")
@@ -115,8 +121,9 @@ def register(ctx, report, facts, config, rule="C17.REGISTER"):
             if len(sv) != 1:
                 problems.append("occupied arm overwrites %d vtable slot(s) (expected exactly 1)" % len(sv))
             else:
-                idx = sv[0][1]
-                oki = len(idx) == 1 and idx[0][0] == "call" and S.callee_at(b, idx[0][1]).name == "get" and "OccupiedEntry" in S.callee_at(b, idx[0][1]).path
+                idx = [Q.strip(ev, i) for i in sv[0][1]]
+                occ = ("field", ("variant", entry_call, "Occupied"), "0", "std::collections::hash_map::Entry")
+                oki = len(idx) == 1 and Q.is_call(ev, idx[0], "get") and "OccupiedEntry" in Q.callee_of(ev, idx[0]).path and Q.strip(ev, idx[0][2][0]) == occ
                 if not oki:
                     problems.append("the overwritten slot is not *occ.get()")
                 if not is_vtable_value(sv[0][2]):
@@ -130,15 +137,8 @@ def register(ctx, report, facts, config, rule="C17.REGISTER"):
               "so the three tables may get out of step" % sorted(seen), site=b.loc(), config=config)
     # attach_vtable's type arguments are (T, R) in this order
     if vt == "vtable_fns":
-        bt = prog.bt(b)
-        refs = []
-        for blk in b.blocks:
-            for st in blk["stmts"]:
-                if st["k"] == "assign" and st["rv"]["k"] == "use" and st["rv"]["op"].get("k") == "const" and "fn" in st["rv"]["op"]:
-                    f = st["rv"]["op"]["fn"]
-                    if f.get("name") == "attach_vtable":
-                        refs.append([a["s"] for a in f["args"] if a["k"] == "ty"])
-        report.ob(rule, "register/attach-args", refs == [["T", "R"]], "stored function is attach_vtable::<T, R>: %s" % refs, site=b.loc(), config=config)
+        okargs = bool(attach_args) and all(a == ["T", "R"] for a in attach_args)
+        report.ob(rule, "register/attach-args", okargs, "stored function is attach_vtable::<T, R>: %s" % attach_args, site=b.loc(), config=config)
     # nobody else mutates the tables
     n = 0
     for bd in sorted(facts.bodies.values(), key=lambda b: b.key):
@@ -388,15 +388,39 @@ def iters(ctx, report, facts, config, rule="C17.ITER"):
         report.ob(rule, "MetaTable::%s" % ctor, ok, "starts at index 0 over the table's own %s / tys and the given world" % vt if ok else "iterator constructor wires %s" % (ret,), site=cb.loc(), config=config)
 
 
+def _sem_skeleton(ctx, facts, b):
+    """Outcomes of a body with the semantic calls made on the way (helpers looked into, all ways of loops followed),
+    shared / exclusive names unified."""
+    ev, ends = Q.sem(ctx, facts, b)
+
+    def names_of(events, out):
+        for x in events:
+            if x[0] == "loop":
+                for it in x[1].iters:
+                    names_of(it.path.events, out)
+                continue
+            if x[0] != "call":
+                continue
+            n = x[2].name or "?"
+            for a_, b_ in W.NORMALISE:
+                if n == a_:
+                    n = b_
+                    break
+            if n in W.SEMANTIC_CALLS and n not in ("deref", "deref_mut", "clone", "cast*", "index", "index_mut", "get*"):
+                out.append(n)
+        return out
+
+    rows = set()
+    for e in ends:
+        rows.add((e.kind, e.ret[2] if e.ret and e.ret[0] == "agg" else None, tuple(sorted(set(names_of(e.path.events, []))))))
+    return sorted(rows, key=str)
+
+
 def sibling(ctx, report, facts, config, rule="C17.SIBLING"):
     a = facts.one(name="next", trait="std::iter::Iterator", self_head=A.METAITER)
     b = facts.one(name="next", trait="std::iter::Iterator", self_head=A.METAITERMUT)
-    sa = W.skeleton(a) + [x for c in facts.closures_of(a) for x in W.skeleton(c)]
-    sb = W.skeleton(b) + [x for c in facts.closures_of(b) for x in W.skeleton(c)]
-    # `cast_mut` only exists on the shared side (*const -> *mut)
-    sa = [x for x in sa if x not in ("cast*",)]
-    sb = [x for x in sb if x not in ("cast*",)]
-    report.ob(rule, "MetaIter::next~MetaIterMut::next", sa == sb, "equal skeletons modulo shared<->exclusive (%d calls)" % len(sa) if sa == sb else "iterators diverge: %s vs %s" % (sa, sb), site=b.loc(), config=config)
+    sa, sb = _sem_skeleton(ctx, facts, a), _sem_skeleton(ctx, facts, b)
+    report.ob(rule, "MetaIter::next~MetaIterMut::next", sa == sb, "equal outcomes and semantic calls modulo shared<->exclusive (%d rows)" % len(sa) if sa == sb else "iterators diverge: %s vs %s" % (sa, sb), site=b.loc(), config=config)
     g, gm = facts.one(MT + "::get"), facts.one(MT + "::get_mut")
 
     def sk(b):
